@@ -601,6 +601,139 @@ def rule_E(ck, units, only=None, floor=3):
                 done.add((f.file, f.line))
 
 
+def rule_F(ck, units, floor=2):
+    """a local std::shared_ptr declared without initialiser is null; if it is assigned only on some paths, every dereference must lie on
+    those paths.  The analysis is disjunctive in the boolean parameters / locals tested directly (`if (flag)`), so `if (get_app) p = ...;
+    ... if (get_app) p->f();` is accepted and an unguarded `p->f()` is reported (the callers that pass get_app = false exist)."""
+    ck.rule('F.null-deref-guarded', 'a local shared_ptr that starts null and is assigned only under a condition is dereferenced only where it has been assigned on every path '
+                                    '(path-sensitive in directly tested boolean flags)', floor)
+    done = set()
+    for u in units.values():
+        for f in u.funcs:
+            if f.cfg is None or (f.file, f.line) in done or not f.rel().startswith('amgcl/'):
+                continue
+            ptrs = {}
+            for n in f.nodes.values():
+                if n['k'] == 'decl':
+                    for v in n['v']:
+                        t = u.type(f.decl(v['d']).get('ct')) or ''
+                        if 'shared_ptr<' in t and v.get('init') is None and f.decl(v['d']).get('k') == 'local' and not f.decl(v['d']).get('ref'):
+                            ptrs[v['d']] = n
+                        elif 'shared_ptr<' in t and v.get('init') is not None and f.decl(v['d']).get('k') == 'local':
+                            iu = unwrap(v['init'])
+                            if iu is not None and iu['k'] in ('ctor', 'tmp', 'zeroinit') and not iu.get('a'):
+                                ptrs[v['d']] = n
+            if not ptrs:
+                continue
+            loc = locate(f)
+            cfg = f.cfg
+            # events: assignment (non-null) / dereference
+            events = {}
+            flags = set()
+            for b in cfg.blocks:
+                c = cfg.cond(b)
+                cu = unwrap(c) if c is not None else None
+                while cu is not None and cu['k'] == 'un' and cu['op'] == '!':
+                    cu = unwrap(cu['e'])
+                if cu is not None and cu['k'] == 'ref' and 'bool' in (u.type(f.decl(cu['d']).get('ct')) or ''):
+                    flags.add(cu['d'])
+            for n in f.nodes.values():
+                if n['i'] not in loc:
+                    continue
+                b, pos = loc[n['i']]
+                if n['k'] == 'bin' and n['op'] == '=' and unwrap(n['x'])['k'] == 'ref' and unwrap(n['x'])['d'] in ptrs:
+                    events.setdefault(b, []).append((pos, n['i'], 'set', unwrap(n['x'])['d'], n))
+                elif n['k'] == 'call' and (n.get('f') or '') == 'std::tie':
+                    for a in n.get('a', []):
+                        au = unwrap(a)
+                        if au is not None and au['k'] == 'ref' and au['d'] in ptrs:
+                            events.setdefault(b, []).append((pos, n['i'], 'set', au['d'], n))
+                elif n['k'] == 'bin' and n['op'] == '=' and unwrap(n['x'])['k'] == 'ref' and unwrap(n['x'])['d'] in flags:
+                    events.setdefault(b, []).append((pos, n['i'], 'flagmod', unwrap(n['x'])['d'], n))
+                else:
+                    tgt = None
+                    if n['k'] == 'mem' and n.get('arrow') and n.get('b') is not None and unwrap(n['b'])['k'] == 'ref':
+                        tgt = unwrap(n['b'])['d']
+                    elif n['k'] == 'un' and n['op'] == '*' and unwrap(n['e'])['k'] == 'ref':
+                        tgt = unwrap(n['e'])['d']
+                    elif n['k'] == 'call' and n.get('obj') is not None and n.get('m') and unwrap(n['obj'])['k'] == 'ref' and n.get('op') in ('->',):
+                        tgt = unwrap(n['obj'])['d']
+                    elif n['k'] == 'call' and n.get('obj') is not None and unwrap(n['obj'])['k'] == 'un' and unwrap(n['obj'])['op'] in ('*', '->') and unwrap(unwrap(n['obj'])['e'])['k'] == 'ref':
+                        tgt = unwrap(unwrap(n['obj'])['e'])['d']
+                    if tgt in ptrs:
+                        events.setdefault(b, []).append((pos, n['i'], 'deref', tgt, n))
+            for b in events:
+                events[b].sort(key=lambda t: (t[0], t[1]))
+            if not any(k_ == 'deref' for evs in events.values() for (_, _, k_, _, _) in evs):
+                continue
+            bad = {}
+
+            def transfer(b, states, record=False):
+                out = {}
+                for val, nn in states:
+                    val = dict(val)
+                    nn = set(nn)
+                    for pos, nid, kind, d, n in events.get(b, ()):
+                        if kind == 'set':
+                            nn.add(d)
+                        elif kind == 'flagmod':
+                            val.pop(d, None)
+                        elif kind == 'deref' and record and d not in nn:
+                            bad.setdefault(d, (n, dict(val)))
+                    kv = tuple(sorted(val.items()))
+                    out[kv] = (out[kv] & frozenset(nn)) if kv in out else frozenset(nn)
+                return frozenset(out.items())
+
+            def edge(b, k, s_, states):
+                c = cfg.cond(b)
+                if c is None or len(cfg.succ[b]) != 2:
+                    return states
+                cu = unwrap(c)
+                neg = False
+                while cu is not None and cu['k'] == 'un' and cu['op'] == '!':
+                    neg = not neg
+                    cu = unwrap(cu['e'])
+                out = []
+                for val, nn in states:
+                    if cu is not None and cu['k'] == 'ref' and cu['d'] in flags:
+                        truth = (k == 0) != neg
+                        known = dict(val).get(cu['d'])
+                        if known is not None and known != truth:
+                            continue
+                        v2 = dict(val)
+                        v2[cu['d']] = truth
+                        out.append((tuple(sorted(v2.items())), nn))
+                    elif cu is not None and cu['k'] == 'ref' and cu['d'] in ptrs:
+                        # if (p) ... : p is non-null on the true edge
+                        truth = (k == 0) != neg
+                        out.append((val, nn | {cu['d']}) if truth else (val, nn))
+                    else:
+                        out.append((val, nn))
+                return frozenset(out) if out else None
+
+            def join(a, b_):
+                m = dict(a)
+                for val, nn in b_:
+                    m[val] = (m[val] & nn) if val in m else nn
+                return frozenset(m.items())
+            IN, OUT = cfg.forward(frozenset([((), frozenset())]), transfer, edge=edge, join=join)
+            for b, st in IN.items():
+                transfer(b, st, record=True)
+            done.add((f.file, f.line))
+            for d, dn in sorted(ptrs.items()):
+                if not any(k_ == 'deref' and dd == d for evs in events.values() for (_, _, k_, dd, _) in evs):
+                    continue
+                key = '%s|%s|%s' % (f.rel(), f.q, f.decl(d)['n'])
+                if d in bad:
+                    n, val = bad[d]
+                    cond = ', '.join('%s == %s' % (f.decl(k_)['n'], 'true' if v_ else 'false') for k_, v_ in val.items()) or 'some path'
+                    ck.ob('F.null-deref-guarded', key, f.where(n), False,
+                          'in %s: the shared pointer `%s` (null when declared at %s) is dereferenced at %s on a path where it was never assigned (%s)' % (
+                              f.full[:80], f.decl(d)['n'], f.where(dn), f.where(n), cond))
+                else:
+                    ck.ob('F.null-deref-guarded', key, f.where(dn), True)
+
+
 def main(tier):
     ck = Check('C10', tier, 'C10 (clauses): raw-allocated arrays are completely filled; arrays are freed only by their owner; empty_level never escapes the hierarchy construction.')
     T = os.path.join(ir.VERIF, 'tus')
@@ -613,6 +746,7 @@ def main(tier):
     rule_C(ck, units)
     rule_D(ck, units)
     rule_E(ck, units, floor=3 if tier == 'quick' else 3)
+    rule_F(ck, units)
     # outputs are a function of the inputs only: the multigrid cycle does not read what an earlier application left in
     # its per-level scratch vectors (rules shared with C02)
     import c02
